@@ -63,6 +63,24 @@ fn compare(ext: &str, src: &Buffer, got: &Buffer, check_fonts: bool) -> Option<(
     // a first and a second font, not slot numbers
     let plain_slots = (0..src.get_height()).all(|y| (0..src.get_width()).all(|x| src.get_char((x, y)).get_font_page() <= 1));
     if !plain_slots {
+        // a single-font picture whose font sits in a higher slot: the file's font (loaded into slot 0) is the font the cells
+        // use, not whatever slot 0 held
+        let mut pages: Vec<usize> = Vec::new();
+        for y in 0..src.get_height() {
+            for x in 0..src.get_width() {
+                let p = src.get_char((x, y)).get_font_page();
+                if !pages.contains(&p) {
+                    pages.push(p);
+                }
+            }
+        }
+        if check_fonts && pages.len() == 1 && matches!(ext, "xb" | "adf" | "idf") {
+            let (a, b) = (font_bytes(src, pages[0]), font_bytes(got, 0));
+            let stock = src.get_font(pages[0]).map(|f| f.is_default()).unwrap_or(false);
+            if a.is_some() && a != b && !(ext == "xb" && stock) {
+                return Some((format!("{ext}|font-glyphs|moved-single-font"), json!({"page": pages[0], "saved_height": a.map(|x| x.0), "loaded_height": b.map(|x| x.0)})));
+            }
+        }
         return None;
     }
     // font page of every cell (XBin 512-character mode)
@@ -456,6 +474,21 @@ fn gen_doc(rng: &mut Rng, ext: &str) -> (DocD, bool) {
         d.layers[0].default_font_page = a as u16;
         if a != 0 {
             d.fonts.push(FontD { slot: 0, name: "unused".into(), height: d.fonts[0].height, builtin: None, data: vec![0x55; 256 * d.fonts[0].height as usize], sauce_name: None });
+        }
+    }
+    // likewise the only font of a single-font picture: in slot 1 / 3 / 5, every cell on that page, another font in slot 0
+    if !two_fonts && d.fonts.len() == 1 && d.fonts[0].slot == 0 && matches!(ext, "xb" | "adf" | "idf") && rng.chance(1, 5) {
+        let a = *rng.pick(&[1usize, 3, 5]);
+        d.fonts[0].slot = a;
+        d.font_mode = 0;
+        for c in d.layers[0].cells.iter_mut() {
+            c.fp = a as u16;
+        }
+        d.layers[0].default_font_page = a as u16;
+        if rng.bool() {
+            d.fonts.push(FontD { slot: 0, name: "unused".into(), height: d.fonts[0].height, builtin: None, data: vec![0x55; 256 * d.fonts[0].height as usize], sauce_name: None });
+        } else {
+            d.fonts.push(FontD { slot: 0, name: "stock".into(), height: 16, builtin: Some(0), data: vec![], sauce_name: None });
         }
     }
     // forced classes: control-range characters, second font inside runs
